@@ -1,0 +1,12 @@
+//! Location conversion hooks (location.rs `location_from_span`, de_error.rs `Error::from_scan_error`).
+use crate::{Error, Location};
+
+/// `location::location_from_span` on a parser span (marks may be synthetic).
+pub fn location_from_span(span: &saphyr_parser::Span) -> Location {
+    crate::location::location_from_span(span)
+}
+
+/// `Error::from_scan_error` on a (possibly synthetic) scan error.
+pub fn from_scan_error(err: saphyr_parser::ScanError) -> Error {
+    Error::from_scan_error(err)
+}
